@@ -262,7 +262,31 @@ pub struct BlockFees {
 	#[serde(with = "secp_ser::string_or_u64")]
 	pub height: u64,
 	/// key id
+	#[serde(default, deserialize_with = "opt_identifier_from_hex")]
 	pub key_id: Option<Identifier>,
+}
+
+/// An optional key identifier given as a hex string. (The identifier's own deserializer
+/// unwraps the hex conversion: a string that is not hex takes the thread down, and
+/// this field arrives on the foreign listener.)
+fn opt_identifier_from_hex<'de, D>(deserializer: D) -> Result<Option<Identifier>, D::Error>
+where
+	D: serde::Deserializer<'de>,
+{
+	use serde::de::Error;
+	use serde::Deserialize;
+	let s: Option<String> = Option::deserialize(deserializer)?;
+	match s {
+		None => Ok(None),
+		Some(s) => {
+			if !s.is_ascii() || crate::grin_util::from_hex(&s).is_err() {
+				return Err(D::Error::custom("key_id is not a hex string"));
+			}
+			Identifier::from_hex(&s)
+				.map(Some)
+				.map_err(|e| D::Error::custom(format!("invalid key_id: {}", e)))
+		}
+	}
 }
 
 impl BlockFees {
